@@ -5,8 +5,8 @@ import AdaptiveProofs.Lemmas.SeqInv
 
 Property theorems only (helper lemmas are in `Lemmas/Seq*.lean`).  All theorems
 quantify over every sequence length, every value type, every request size and
-every finite list of operations (`ask n commit`, `tell i v` with `i < ntotal`,
-`remove_unfinished`); nothing is bounded.
+every finite list of operations (`ask n commit`, `tell i v` with `i < ntotal`, explicit
+`tell_pending i` of an element without result, `remove_unfinished`); nothing is bounded.
 -/
 namespace Seq
 variable {β : Type}
@@ -82,6 +82,12 @@ theorem seq_no_repeat :
       refine ⟨ihnd, fun j hj => ?_⟩
       have := ihmem j hj
       simp only [step, tell, mem_erase_sorted h.todo_sorted] at this
+      exact this.2
+    | tellPending i =>
+      simp only [handedOut, List.nil_append]
+      refine ⟨ihnd, fun j hj => ?_⟩
+      have := ihmem j hj
+      simp only [step, tellPending, mem_erase_sorted h.todo_sorted] at this
       exact this.2
     | ask n c =>
       cases c with
